@@ -394,3 +394,42 @@ def run(eng: Engine, ck: Check):
     from . import defs as _d13
     _d13.presence_truthiness(eng, ck, 'R-C13-PARENT', [('DistributedPeer', DIST), ('PeerConnection', CONN)], '`if self.parent`, `if not peer.connection` decide whether there is a parent / a live connection')
     _d13.identity_semantics(eng, ck, 'R-C13-ADMIT', [('PeerConnection', CONN)], 'get_distributed_peer and the child list compare connections; two connections of one user are different connections')
+    announced_values_rule(eng, ck)
+
+
+def announced_values_rule(eng: Engine, ck: Check):
+    """R-C13-ADVERT (inputs): the position we advertise is computed from the level / root the parent LAST announced, so the handlers of
+    those announcements must store what was announced: DistributedBranchLevel(n) sets the peer's level to n and -- level 0 meaning "I am
+    the root myself", the root message is then optional -- its root to its own name; DistributedBranchRoot(u) sets the root to u.  The
+    stores are read with the effect extractor of C19; the only conditions accepted on them are "the peer is known", the level-0 test
+    and a skip-when-unchanged test on the stored field itself."""
+    from .c19 import effects_of
+
+    def peer_known(cnd: str) -> bool:
+        return 'get_distributed_peer' in cnd and not any(op in cnd for op in ('==', '!=', ' is ', ' in ', '<', '>', '.branch_'))
+
+    def unchanged_skip(cnd: str, fld: str, value: str) -> bool:
+        c = cnd.replace(' ', '')
+        return c.startswith('not') and c.endswith(f'.{fld}=={value}'.replace(' ', '')) or (not c.startswith('not') and c.endswith(f'.{fld}!={value}'.replace(' ', '')))
+    want = {
+        'DistributedNetwork._on_distributed_branch_level': [('branch_level', 'message.level', set()), ('branch_root', None, {'message.level == 0'})],
+        'DistributedNetwork._on_distributed_branch_root': [('branch_root', 'message.username', set())],
+    }
+    for qn, stores in want.items():
+        f = eng.func(DIST, qn)
+        ck.visited(f)
+        effs = [e for e in effects_of(eng, f) if e['field'] in ('branch_level', 'branch_root') and e['kind'] == 'SET']
+        for fld, value, needed in stores:
+            cands = [e for e in effs if e['field'] == fld and (value is None and e['value'].endswith(('.username', '.us')) or e['value'] == value)]
+            ok, why = False, f'no store of {fld}'
+            for e in cands:
+                conds = set(e['if'])
+                extra = {c for c in conds if not peer_known(c) and c not in needed and not unchanged_skip(c, fld, e['value'])}
+                if needed <= conds and not extra and not e['each']:
+                    ok = True
+                else:
+                    why = f'stored only under {sorted(extra) or sorted(conds)}'
+            what = f'{fld} := {value or "the peer itself"}' + (f' when {sorted(needed)[0]}' if needed else '')
+            ck.ob('R-C13-ADVERT', f, f.node, f'{qn.split(".")[-1]}: {what}, with no further condition', ok,
+                  f'{why}: a later announcement that does not meet it leaves the old value in place; we go on telling the server and every child a root / level '
+                  'the parent no longer has', construct=f'{qn.split(".")[-1]} stores {fld}')
